@@ -249,14 +249,58 @@ class Ctx:
         return exe
 
     # ---------------------------------------------------------------- running cases
-    def run_lines(self, exe, cases, timeout=600, args=(), env=None):
-        """Feed one case per line on stdin, expect one output line per case."""
-        data = '\n'.join(cases) + '\n'
-        rc, o, e = sh([exe] + list(args), input=data, timeout=timeout, env=env)
-        lines = o.split('\n')
-        if lines and lines[-1] == '':
-            lines.pop()
-        return rc, lines, e
+    def run_lines(self, exe, cases, timeout=600, args=(), env=None, shard=200):
+        """Feed one case per line on stdin, expect one output line per case.  The cases are
+        split into shards that run concurrently (every harness/driver treats its cases
+        independently).  A shard that does not finish in time has stalled on the first case
+        without an output line: that case is reported as 'HARNESS-STALL' (an observation of
+        the implementation, like CRASH/TIMEOUT of a forked case) and the rest of the shard is
+        re-run, so the result always has exactly one line per case."""
+        from concurrent.futures import ThreadPoolExecutor
+        env = dict(env or os.environ)
+        env.setdefault('H_TIMEOUT', '5' if self.tier == 'quick' else '10')
+        cases = list(cases)
+        if not cases:
+            return 0, [], ''
+        nsh = max(1, min(NCPU, (len(cases) + shard - 1) // shard))
+        size = (len(cases) + nsh - 1) // nsh
+        chunks = [cases[i:i + size] for i in range(0, len(cases), size)]
+        per_case = float(env['H_TIMEOUT'])
+
+        def run_chunk(chunk):
+            out, errs, rcs = [], [], 0
+            rest = chunk
+            stalls = 0
+            while rest:
+                budget = min(timeout, 30 + per_case * 3 + 0.05 * len(rest))
+                rc, o, e = sh([exe] + list(args), input='\n'.join(rest) + '\n', timeout=budget, env=env)
+                lines = o.split('\n')
+                if lines and lines[-1] == '':
+                    lines.pop()
+                lines = lines[:len(rest)]
+                out += lines
+                errs.append(e[-2000:] if e else '')
+                if len(lines) >= len(rest):
+                    rcs = rc
+                    break
+                # stalled (or died) on case number len(lines) of `rest`
+                out.append('HARNESS-STALL' if rc == -9 else 'HARNESS-DIED(rc=%s)' % rc)
+                rest = rest[len(lines) + 1:]
+                stalls += 1
+                if stalls > 20:          # give up on this shard: mark the remainder
+                    out += ['HARNESS-STALL'] * len(rest)
+                    break
+            return rcs, out, ''.join(errs)
+
+        if len(chunks) == 1:
+            rc, lines, err = run_chunk(chunks[0])
+            return rc, lines, err
+        with ThreadPoolExecutor(max_workers=len(chunks)) as ex:
+            res = list(ex.map(run_chunk, chunks))
+        lines, errs, rc = [], [], 0
+        for r, l, e in res:
+            lines += l; errs.append(e); rc = rc or r
+        return rc, lines, ''.join(errs)
 
     def count_case(self, key, nontrivial=True):
         self.cov['evaluations'] += 1
